@@ -39,6 +39,9 @@ func (r *RunResult) stallAllowanceNs(sc *Scenario) int64 {
 	for _, s := range sc.Cost.Stalls {
 		a += int64(s.DurUs) * 1000
 	}
+	if sc.Cost.SetupStallPct > 0 {
+		a += int64(sc.Cost.SetupStallMaxUs) * 1000
+	}
 	return a
 }
 
@@ -385,6 +388,9 @@ func CheckUciHistory(sc *Scenario, out *UciRunOut, res *RunResult) {
 			if c16 {
 				res.addViolation("C16", "position_lost", fmt.Sprintf("after damaged line %q engine holds %q, acceptable %v", pc.Line, pc.Got, pc.Want))
 			}
+		} else if c16 {
+			// a valid position command inside a session with damaged lines
+			res.addViolation("C16", "valid_position_not_set", fmt.Sprintf("after the valid command %q engine holds %q, expected %q", pc.Line, pc.Got, pc.Want[0]))
 		} else if c12 {
 			res.addViolation("C12", "wrong_position", fmt.Sprintf("after %q engine holds %q, expected %q", pc.Line, pc.Got, pc.Want[0]))
 		}
@@ -411,6 +417,31 @@ func CheckUciHistory(sc *Scenario, out *UciRunOut, res *RunResult) {
 		}
 		res.addViolation(prop, "panic:"+panicSite(lp.Msg), fmt.Sprintf("line %q: %s", lp.Line, clip(lp.Msg, 400)))
 	}
+	dropConsequences(res)
+}
+
+// dropConsequences removes violations that are mere consequences of the
+// protocol loop having ended after an over-long line (one defect, one class):
+// once the loop is gone nothing is answered any more.
+func dropConsequences(res *RunResult) {
+	ended := false
+	for _, v := range res.Violations {
+		if v.Class == "loop_ended_after_overlong_line" {
+			ended = true
+		}
+	}
+	if !ended {
+		return
+	}
+	keep := res.Violations[:0]
+	for _, v := range res.Violations {
+		switch v.Class {
+		case "no_readyok", "readyok_late", "go_unanswered", "search_not_terminating", "position_lost", "valid_position_not_set", "wrong_position", "go_searchmoves_unanswered":
+			continue
+		}
+		keep = append(keep, v)
+	}
+	res.Violations = keep
 }
 
 func pick(c bool, a, b string) string {
